@@ -30,7 +30,7 @@ fn sink_bytes(recs: &[crate::exec::Rec]) -> Option<&Vec<u8>> {
 
 pub fn gen_c01(rng: &mut Rng, tier: Tier) -> Case {
     let spec = if rng.chance(1, 5) { gen::gen_layered_spec(rng, tier) } else { gen::gen_file_spec(rng, tier, true) };
-    Case::File(FileCase { spec, env: gen::gen_env(rng, true), v1: false })
+    Case::File(FileCase { spec, env: gen::gen_env(rng, true), v1: false, big: None })
 }
 
 pub fn check_c01(case: &Case, st: &mut Stats) -> Verdict {
@@ -118,11 +118,14 @@ pub fn gen_c09(rng: &mut Rng, tier: Tier) -> Case {
         // 0.4.7 wraps on 255 as well; the interop matrix uses depths both versions write
         spec.knobs.levels = 254;
     }
-    Case::File(FileCase { spec, env: gen::gen_env(rng, true), v1: false })
+    Case::File(FileCase { spec, env: gen::gen_env(rng, true), v1: false, big: None })
 }
 
 pub fn check_c09(case: &Case, st: &mut Stats) -> Verdict {
     let Case::File(c) = case else { return viol("C09", "harness", "wrong case kind".into()) };
+    if c.big.is_some() {
+        return check_big_index(case, st);
+    }
     let entries = c.spec.entries.materialize();
     // write through the simulated sink only
     let env = crate::env::Env::new(c.env.clone());
@@ -271,7 +274,7 @@ fn gen_c15_lander(rng: &mut Rng) -> Case {
     }
     let ents = keys.into_iter().map(|k| (B(k), B(vec![7u8; 0]))).collect();
     let knobs = Knobs { codec: 0, level: 0, block_size: Some(b), interval: *rng.pick(&[None, Some(1)]), levels, ctor: 0, fin: 0 };
-    Case::File(FileCase { spec: FileSpec { knobs, entries: Entries::Literal(ents) }, env: EnvPlan::whole(), v1: false })
+    Case::File(FileCase { spec: FileSpec { knobs, entries: Entries::Literal(ents) }, env: EnvPlan::whole(), v1: false, big: None })
 }
 
 pub fn gen_c15(rng: &mut Rng, tier: Tier) -> Case {
@@ -285,7 +288,7 @@ pub fn gen_c15(rng: &mut Rng, tier: Tier) -> Case {
     if rng.chance(1, 3) {
         spec.knobs.levels = *rng.pick(&[2u8, 3, 4]);
     }
-    Case::File(FileCase { spec, env: EnvPlan::whole(), v1: false })
+    Case::File(FileCase { spec, env: EnvPlan::whole(), v1: false, big: None })
 }
 
 pub fn check_c15(case: &Case, st: &mut Stats) -> Verdict {
@@ -399,7 +402,7 @@ pub fn gen_c18(rng: &mut Rng, tier: Tier) -> Case {
         }
     }
     spec.entries = Entries::Literal(ents);
-    Case::File(FileCase { spec, env: EnvPlan::whole(), v1: false })
+    Case::File(FileCase { spec, env: EnvPlan::whole(), v1: false, big: None })
 }
 
 pub fn check_c18(case: &Case, st: &mut Stats) -> Verdict {
@@ -497,7 +500,7 @@ pub fn gen_c13(rng: &mut Rng, tier: Tier) -> Case {
         }
     }
     spec.entries = Entries::Literal(ents);
-    Case::File(FileCase { spec, env: gen::gen_env(rng, true), v1: rng.chance(1, 4) })
+    Case::File(FileCase { spec, env: gen::gen_env(rng, true), v1: rng.chance(1, 4), big: None })
 }
 
 fn open_matches(bytes: &[u8]) -> Result<bool, String> {
@@ -723,11 +726,19 @@ pub fn gen_c10(rng: &mut Rng, tier: Tier) -> Case {
     if ents.len() > 1500 {
         ents.truncate(1500);
     }
+    if rng.chance(1, 12) {
+        // many very regular tiny entries: data that compresses to less than a byte per entry
+        let n = rng.urange(2000, 9000);
+        ents = (0..n).map(|i| (B(format!("{:010}", i * 3).into_bytes()), B(Vec::new()))).collect();
+        spec.knobs.codec = *rng.pick(&[4u8, 4, 2, 5]);
+        spec.knobs.level = *rng.pick(&[1u32, 3]);
+        spec.knobs.block_size = *rng.pick(&[None, Some(65536), Some(usize::MAX)]);
+    }
     spec.entries = Entries::Literal(ents.clone());
     let keys: Vec<Vec<u8>> = ents.iter().map(|(k, _)| k.0.clone()).collect();
     let env = gen::gen_env(rng, true);
     match rng.below(4) {
-        0 => Case::File(FileCase { spec, env, v1: true }),
+        0 => Case::File(FileCase { spec, env, v1: true, big: None }),
         1 => {
             let probes = gen::gen_probes(rng, &keys, 300);
             let mut steps = Vec::new();
@@ -819,5 +830,238 @@ pub fn check_c10(case: &Case, st: &mut Stats) -> Verdict {
         Case::Cursor(_) => "v1.history_cases",
         _ => "v1.iterator_cases",
     });
+    None
+}
+
+// ------------------------------------------------------------------------------------- beyond 4 GiB
+
+pub fn gen_big(rng: &mut Rng, levels: u8) -> Case {
+    let filler_len = 1u32 << 20;
+    let fillers = rng.range(4100, 4200) as u32; // > 4 GiB of block bodies
+    let knobs = Knobs { codec: 0, level: 0, block_size: *rng.pick(&[None, Some(4096)]), interval: *rng.pick(&[None, Some(1)]), levels, ctor: 0, fin: 1 };
+    Case::File(FileCase {
+        spec: FileSpec { knobs, entries: Entries::Literal(vec![]) },
+        env: EnvPlan::whole(),
+        v1: false,
+        big: Some(BigSpec { fillers, filler_len, small: rng.range(40, 1200) as u32 }),
+    })
+}
+
+fn read_block_at(d: &crate::env::SparseData, off: u64, depth: usize) -> Result<decode::BlockInfo, String> {
+    let pre = d.read_at(off, 8).ok_or_else(|| format!("no stored bytes at {} (length prefix of a block)", off))?;
+    let mut a = [0u8; 8];
+    a.copy_from_slice(pre);
+    let len = u64::from_be_bytes(a);
+    if len > (1 << 26) {
+        return Err(format!("block at {} claims a stored length of {} bytes", off, len));
+    }
+    let body = d.read_at(off + 8, len as usize).ok_or_else(|| format!("block at {}: body of {} bytes is not stored", off, len))?;
+    let mut tmp = Vec::with_capacity(8 + body.len());
+    tmp.extend_from_slice(&a);
+    tmp.extend_from_slice(body);
+    let mut b = decode::parse_block(&tmp, 0, tmp.len() as u64, 0, depth)?;
+    b.off = off;
+    Ok(b)
+}
+
+/// C09 on a file beyond 4 GiB: the index written by the real writer, walked by the independent
+/// decoder over the sparse sink, must map the last key of every data block to the offset at which
+/// that block was observed to start.
+pub fn check_big_index(case: &Case, st: &mut Stats) -> Verdict {
+    let Case::File(c) = case else { return viol("C09", "harness", "wrong case kind".into()) };
+    let Some(big) = &c.big else { return viol("C09", "harness", "not a big case".into()) };
+    let env = crate::env::Env::new(EnvPlan::whole());
+    let mut tx = crate::exec::Tx::new(env.clone());
+    let mut out = None;
+    crate::exec::guarded(&mut tx, |tx| out = crate::exec::exec_big_write(tx, &c.spec.knobs, big.fillers, big.filler_len, big.small));
+    st.public_calls += (big.fillers + big.small) as u64;
+    st.io_calls += env.io_calls();
+    for r in &tx.recs {
+        match &r.res {
+            Res::Panic(m) => return viol("C09", &format!("big.panic.{}", r.op), format!("{} panicked: {}", r.op, m)),
+            Res::Err(e) => return viol("C09", &format!("big.err.{}", r.op), format!("{} failed: {}", r.op, e.text)),
+            _ => {}
+        }
+    }
+    let Some(out) = out else { return viol("C09", "big.harness", "no output".into()) };
+    let d = out.data.borrow();
+    st.c.max("max.file_length_bytes", d.len);
+    if d.len < (1u64 << 32) {
+        return viol("C09", "big.harness", format!("the file is only {} bytes long", d.len));
+    }
+    let t = match d.read_at(d.len - 22, 22) {
+        Some(t) => t.to_vec(),
+        None => return viol("C09", "big.trailer", "the last 22 bytes were not stored".into()),
+    };
+    let tr = match decode::parse_trailer(&t) {
+        Ok(t) => t,
+        Err(e) => return viol("C09", "big.trailer", e),
+    };
+    let total = (big.fillers + big.small) as u64;
+    if tr.count != total || tr.levels != c.spec.knobs.levels || tr.codec != 0 || tr.version != 2 {
+        return viol("C09", "big.trailer-fields", format!("trailer (count {}, levels {}, codec {}, v{}) for {} entries at {} levels", tr.count, tr.levels, tr.codec, tr.version, total, c.spec.knobs.levels));
+    }
+    // expected lowest-level index entries: (last key of the block, start of the block)
+    let mut expected: Vec<(Vec<u8>, u64)> = Vec::new();
+    for (i, k) in out.keys.iter().enumerate() {
+        let start = out.block_starts[i];
+        match expected.last_mut() {
+            Some((lk, s)) if *s == start => *lk = k.clone(),
+            _ => expected.push((k.clone(), start)),
+        }
+    }
+    // walk the index tree
+    let levels = tr.levels as usize;
+    let mut got: Vec<(Vec<u8>, u64)> = Vec::new();
+    let mut stack = vec![(tr.root_off, 0usize)];
+    let mut guard = 0;
+    while let Some((off, depth)) = stack.pop() {
+        guard += 1;
+        if guard > 100_000 {
+            return viol("C09", "big.index-walk", "index walk does not terminate".into());
+        }
+        let b = match read_block_at(&d, off, depth) {
+            Ok(b) => b,
+            Err(e) => return viol("C09", "big.index-block", format!("index block at depth {}: {}", depth, e)),
+        };
+        let mut children = Vec::new();
+        for (_, k, v) in &b.entries {
+            if v.len() != 8 {
+                return viol("C09", "big.index-value", format!("index value of {} bytes at depth {}", v.len(), depth));
+            }
+            let mut a = [0u8; 8];
+            a.copy_from_slice(v);
+            children.push((k.clone(), u64::from_be_bytes(a)));
+        }
+        if depth == levels {
+            got.extend(children);
+        } else {
+            for (_, o) in children.into_iter().rev() {
+                stack.push((o, depth + 1));
+            }
+        }
+    }
+    if got != expected {
+        let i = got.iter().zip(expected.iter()).position(|(a, b)| a != b).unwrap_or(got.len().min(expected.len()));
+        return viol(
+            "C09",
+            "big.index-offsets",
+            format!(
+                "index entry #{} is {:?} but the block holding that key was observed to start at {:?} ({} vs {} entries)",
+                i,
+                got.get(i).map(|(k, o)| (k.clone(), *o)),
+                expected.get(i).map(|(k, o)| (k.clone(), *o)),
+                got.len(),
+                expected.len()
+            ),
+        );
+    }
+    st.c.inc("runs.file_beyond_4GiB_index_walked");
+    st.c.add("index_entries_beyond_4GiB", expected.iter().filter(|(_, o)| *o >= (1 << 32)).count() as u64);
+    let h = fnv1a(format!("{:?}{:?}", c.spec.knobs, big).as_bytes());
+    st.distinct.insert(h);
+    st.nontrivial.insert(h);
+    None
+}
+
+/// C02 on a file beyond 4 GiB: seeks whose answers lie behind the 4 GiB line, through the real
+/// reader over the sparse source, against the model.
+pub fn check_big_seeks(case: &Case, st: &mut Stats) -> Verdict {
+    let Case::File(c) = case else { return viol("C02", "harness", "wrong case kind".into()) };
+    let Some(big) = &c.big else { return viol("C02", "harness", "not a big case".into()) };
+    let env = crate::env::Env::new(c.env.clone());
+    let mut tx = crate::exec::Tx::new(env.clone());
+    let mut out = None;
+    crate::exec::guarded(&mut tx, |tx| out = crate::exec::exec_big_write(tx, &c.spec.knobs, big.fillers, big.filler_len, big.small));
+    if let Some(r) = tx.recs.iter().find(|r| r.res.is_err() || r.res.is_panic()) {
+        return viol("C02", &format!("big.write.{}", r.op), format!("{} -> {}", r.op, r.res.short()));
+    }
+    let Some(out) = out else { return viol("C02", "big.harness", "no output".into()) };
+    let keys = out.keys.clone();
+    let sf = out.small_from;
+    let n = keys.len();
+    let entry = |i: usize| Res::Entry(keys[i].clone(), keys[i].clone());
+    let mut rng = Rng::new(fnv1a(format!("{:?}", big).as_bytes()));
+    let mut steps: Vec<(Op, Res)> = Vec::new();
+    steps.push((Op::Last, entry(n - 1)));
+    for back in 1..=(n - sf - 1).min(5) {
+        steps.push((Op::Prev, entry(n - 1 - back)));
+    }
+    for _ in 0..60 {
+        let i = rng.urange(sf, n - 1);
+        let k = keys[i].clone();
+        let mut succ = k.clone();
+        succ.push(0);
+        steps.push((Op::Eq(B(k.clone())), entry(i)));
+        steps.push((Op::Ge(B(k.clone())), entry(i)));
+        steps.push((Op::Le(B(k.clone())), entry(i)));
+        steps.push((Op::Le(B(succ.clone())), entry(i)));
+        steps.push((Op::Eq(B(succ.clone())), Res::None));
+        if i + 1 < n {
+            steps.push((Op::Ge(B(succ)), entry(i + 1)));
+        }
+        if i > sf {
+            steps.push((Op::Ge(B(gen::pred(&k))), entry(i)));
+            steps.push((Op::Le(B(gen::pred(&k))), entry(i - 1)));
+        }
+    }
+    let data = out.data.clone();
+    let mut tx2 = crate::exec::Tx::new(env.clone());
+    let steps2 = steps.clone();
+    crate::exec::guarded(&mut tx2, |tx| {
+        let src = tx.env.new_sparse_source(data);
+        let Some(r) = tx.call("Reader::new", move || match grenad::Reader::new(src) {
+            Ok(r) => {
+                let l = r.len();
+                Ok((r, Res::Count(l)))
+            }
+            Err(e) => Err(crate::exec::desc_err(&e)),
+        }) else {
+            return;
+        };
+        let Some(mut cur) = tx.call("Reader::into_cursor", move || match r.into_cursor() {
+            Ok(c) => Ok((c, Res::Unit)),
+            Err(e) => Err(crate::exec::desc_err(&e)),
+        }) else {
+            return;
+        };
+        for (op, _) in &steps2 {
+            if !matches!(op, Op::Prev | Op::Next) {
+                cur.reset();
+            }
+            if crate::exec::cur_op(tx, &mut cur, op).is_none() {
+                return;
+            }
+        }
+    });
+    st.public_calls += tx2.recs.len() as u64;
+    st.io_calls += env.io_calls();
+    let mut exp: Vec<Res> = vec![Res::Count(n as u64), Res::Unit];
+    exp.extend(steps.iter().map(|(_, r)| r.clone()));
+    for (i, r) in tx2.recs.iter().enumerate() {
+        let want = exp.get(i);
+        if want != Some(&r.res) {
+            return viol(
+                "C02",
+                &format!("big.result.{}", r.op),
+                format!(
+                    "file of {} bytes, call #{} {}: returned {} but the model says {}",
+                    out.data.borrow().len,
+                    i,
+                    r.op,
+                    r.res.short(),
+                    want.map(|w| w.short()).unwrap_or_default()
+                ),
+            );
+        }
+    }
+    if tx2.recs.len() != exp.len() {
+        return viol("C02", "big.missing-call", format!("{} of {} calls executed", tx2.recs.len(), exp.len()));
+    }
+    st.c.inc("runs.file_beyond_4GiB_seeks");
+    st.c.add("seeks_answered_from_beyond_4GiB", steps.len() as u64);
+    let h = fnv1a(format!("{:?}{:?}s", c.spec.knobs, big).as_bytes());
+    st.distinct.insert(h);
+    st.nontrivial.insert(h);
     None
 }
